@@ -48,6 +48,8 @@ pub struct Th {
     frel: VC,
     pub low_prio: bool,
     uninterruptible: bool,
+    /// scheduling points still to be executed normally before the thread runs alone
+    alone_after: Option<u32>,
     alone_points: u32,
     consec_yield: u32,
     pub parks: u32,
@@ -403,9 +405,18 @@ impl Rt {
         let mut g = lock(self);
         g.steps += 1;
         g.stamp += 1;
+        if let Some(k) = g.th[me].alone_after {
+            if k == 0 {
+                g.th[me].alone_after = None;
+                g.th[me].uninterruptible = true;
+                g.th[me].alone_points = 0;
+            } else {
+                g.th[me].alone_after = Some(k - 1);
+            }
+        }
         if g.th[me].uninterruptible {
             g.th[me].alone_points += 1;
-            if g.th[me].alone_points > 200_000 {
+            if g.th[me].alone_points > 20_000 {
                 // an uninterruptible section that never ends: give up on this execution
                 self.abandon(g, me, "uninterruptible section did not finish".into());
             }
@@ -839,6 +850,24 @@ pub fn run_alone<R>(f: impl FnOnce() -> R) -> (R, u32) {
     (r, g.th[me].alone_points)
 }
 
+/// Like `run_alone`, but the first `k` scheduling points of `f` are scheduled normally
+/// (so another thread can slip in) and only the rest runs with everybody else suspended.
+/// Returns the points consumed after the switch to alone mode.
+pub fn run_alone_after<R>(k: u32, f: impl FnOnce() -> R) -> (R, u32) {
+    let me = vid();
+    {
+        let mut g = lock(rt());
+        g.th[me].alone_after = Some(k);
+        g.th[me].alone_points = 0;
+    }
+    let r = f();
+    let mut g = lock(rt());
+    let pts = if g.th[me].uninterruptible { g.th[me].alone_points } else { 0 };
+    g.th[me].uninterruptible = false;
+    g.th[me].alone_after = None;
+    (r, pts)
+}
+
 /// Allocate a waker slot owned by the calling virtual thread.
 pub fn new_waker() -> u32 {
     let me = vid();
@@ -1060,6 +1089,7 @@ pub fn run(cfg: Config, bodies: Vec<Job>) -> Outcome {
                 frel: [0; MAXT],
                 low_prio: i == n - 1,
                 uninterruptible: false,
+                alone_after: None,
                 alone_points: 0,
                 consec_yield: 0,
                 parks: 0,
